@@ -6,10 +6,12 @@ Scenario (JSON-able dict):
   dials:    list of per-start_connection entries: ["refused"] | ["hang"] | ["connect", i]
             (when exhausted: refused)
   verifies: list of per-opened-connection outcomes (when exhausted: "ok", 0):
-            [kind, delta, lost_delay] with kind in ok|wrongid|badtag|badsig|auth|invalid|garbage|peerclose|peerreset|http4xx
+            [kind, delta, lost_delay, vdelay] with kind in ok|wrongid|badtag|badsig|auth|invalid|garbage|peerclose|peerreset|http4xx
             delta (ticks, only for ok): how long the accessory takes to answer the re-subscribe PUT
             lost_delay (ticks, optional): connection_lost of this connection is delivered that long after
             the controller closes it (a send buffer still draining) - the "loss of an abandoned connection" case
+            vdelay (ticks, optional): the accessory reacts to the pair-verify request (reply / FIN / RST) that long
+            after receiving it; >= 30 s (122880) means the request times out first (_send_lines)
   subs:     bool - the pairing has a subscription (so connection_made(True) does a round trip)
   controls: list of [tick, kind, arg] sorted by tick; kinds:
             ensure w | cancel w | zeroconf [host indices] | soon | drop cid | dropreset cid | close | shutdown |
@@ -124,6 +126,7 @@ def run_scenario(sc):
             ep = simacc.SimEndpoint(net, tr, v[0], handler=handler)
             ep.delta = v[1] if len(v) > 1 else 0
             tr.lost_delay_ticks = v[2] if len(v) > 2 else 0
+            ep.vdelay = v[3] if len(v) > 3 else 0
             return ep
         net.endpoint_factory = ef
 
